@@ -71,7 +71,7 @@ theorem ok_has_quorum (ops : List Op) (op : Op) (caller : Nat) (c : Content)
   have inv := inv_run ops
   obtain ⟨q, hq, hcaller, hcases⟩ := step_deliveries h
   refine ⟨q, hq, hcaller, ?_⟩
-  rcases hcases with ⟨p, c0, fk, hop, hreach, ho⟩ | ⟨_, ho⟩ | ⟨_, ho⟩ | ⟨_, ho⟩
+  rcases hcases with ⟨p, c0, fk, hop, hkey, hreach, ho⟩ | ⟨_, ho⟩ | ⟨_, ho⟩ | ⟨_, ho⟩
   · rcases ho with ho | ho
     · unfold completedOutcome at ho
       split at ho
@@ -88,7 +88,7 @@ theorem ok_has_quorum (ops : List Op) (op : Op) (caller : Nat) (c : Content)
           · intro p' hp'
             have hret : (step (run ops) op).1.returned = (run ops).returned ++ [(q.qid, p, c)] := by
               subst hop
-              simp [step, findQ_of_mem inv hq, hreach, terminate]
+              simp [step, findQ_of_mem inv hq, hreach, terminate, hkey]
             rw [hret]
             rcases addPeer_mem hmem with hold | ⟨_, _, h3⟩
             · exact List.mem_append_left _ (inv.returned q hq _ hold p' hp')
@@ -212,7 +212,9 @@ theorem dup_peer_counts_once (ops : List Op) (q : Query) (hq : q ∈ (run ops).p
         subst this; rfl
       · rfl
     rw [List.map_congr_left this]; simp
-  simp [step, findQ_of_mem inv hq, hadd, hnr, hid]
+  by_cases hg : fk.getD q.key = q.key
+  · simp [step, findQ_of_mem inv hq, hadd, hnr, hid, hg]
+  · simp [step, findQ_of_mem inv hq, foundChecksKey, hg]
 
 /-- the accumulated count is the number of *distinct* responders: what `addPeer` reports is the length of a
 duplicate-free list -/
@@ -407,7 +409,7 @@ theorem split_returns_all_or_merge (ops : List Op) (op : Op) (caller : Nat) (o :
   obtain ⟨q, hq, hcaller, hcases⟩ := step_deliveries h
   refine ⟨q, hq, hcaller, ?_⟩
   intro hlen
-  rcases hcases with ⟨p, c0, fk, hop, _, ho⟩ | ⟨hop, ho⟩ | ⟨hop, ho⟩ | ⟨hop, ho⟩
+  rcases hcases with ⟨p, c0, fk, hop, _, _, ho⟩ | ⟨hop, ho⟩ | ⟨hop, ho⟩ | ⟨hop, ho⟩
   · subst hop
     simp only [resultsAt] at hlen ⊢
     rcases ho with ho | ho
@@ -445,58 +447,46 @@ theorem split_returns_all_or_merge (ops : List Op) (op : Op) (caller : Nat) (o :
       · rfl
     · right; right; right; right; exact ho
 
-/-! ## The key carried by a reply's record (candidate finding K-d3)
+/-! ## The key carried by a reply's record
 
-libp2p-kad hands a `FoundRecord` to the handlers without comparing `record.key` with the key of the query, and
-`accumulate_get_record_found` never compares it either: versions are keyed and counted by the hash of the *value*
-alone, and the record handed to the callers is the completing reply's own record. -/
+libp2p-kad hands a `FoundRecord` to the handlers without comparing `record.key` with the key of the query.
+`accumulate_get_record_found` drops a reply whose record carries another key before any use of it
+(`Gen.foundChecksKey`, regenerated from the source; fix 090e7e0 of the former finding K-d3). -/
 
-/-- Full strength: the record delivered with `ok` carries the requested key. -/
+/-- **A reply carrying another key is ignored**: it changes nothing and delivers nothing, as if the peer had not
+answered. -/
+theorem foreign_key_reply_ignored (ops : List Op) (q : Query) (hq : q ∈ (run ops).pending)
+    (p : Nat) (c : Content) (k : Nat) (hk : k ≠ q.key) :
+    step (run ops) (.found q.qid p c (some k)) = (run ops, {}) := by
+  have hf := findQ_of_mem (inv_run ops) hq
+  simp [step, hf, foundChecksKey, hk]
+
+/-- The record delivered with `ok` carries the requested key. -/
 def OkCarriesRequestedKey : Prop :=
   ∀ (ops : List Op) (op : Op) (caller : Nat) (c : Content),
     (caller, Outcome.ok c) ∈ (step (run ops) op).2.deliveries →
     ∀ q ∈ (run ops).pending, caller ∈ q.senders → deliveredKey (run ops) q op c = q.key
 
-/-- **Witness.** One reply to a `Quorum::One` read of key 0 whose record carries key 1: the caller receives `ok`
-and the record it receives carries key 1. -/
-theorem foreign_key_returned_witness :
-    (step (run [.get 0 0 { quorum := .one, target := none, isReg := false }]) (.found 0 1 (.hdr .chunk 0) (some 1))).2.deliveries
-      = [(0, .ok (.hdr .chunk 0))] ∧
-    (∃ q ∈ (run [.get 0 0 { quorum := .one, target := none, isReg := false }]).pending, 0 ∈ q.senders ∧ q.key = 0 ∧
-      deliveredKey (run [.get 0 0 { quorum := .one, target := none, isReg := false }]) q
-        (.found 0 1 (.hdr .chunk 0) (some 1)) (.hdr .chunk 0) = 1) := by
-  refine ⟨by decide, ?_⟩
-  exact ⟨{ qid := 0, key := 0, senders := [0], results := [], cfg := { quorum := .one, target := none, isReg := false } },
-    by decide, by decide, rfl, rfl⟩
-
-theorem not_okCarriesRequestedKey : ¬ OkCarriesRequestedKey := by
-  intro h
-  obtain ⟨hdel, q, hq, hs, hk, hd⟩ := foreign_key_returned_witness
-  have := h [.get 0 0 { quorum := .one, target := none, isReg := false }] (.found 0 1 (.hdr .chunk 0) (some 1)) 0
-    (.hdr .chunk 0) (by rw [hdel]; simp) q hq hs
-  rw [hd, hk] at this
-  cases this
-
-/-- **Partial.** The record delivered with `ok` carries the key of the reply that completed the quorum; if that
-reply carried the query's key (`fk = none`), so does the delivered record. (An `ok` is only ever delivered by a
-reply, see `finished_timeout_deliver_no_ok`.) -/
-theorem ok_key_partial (ops : List Op) (op : Op) (caller : Nat) (c : Content)
-    (h : (caller, Outcome.ok c) ∈ (step (run ops) op).2.deliveries) :
-    ∃ q ∈ (run ops).pending, caller ∈ q.senders ∧ ∃ p c0 fk, op = .found q.qid p c0 fk ∧
-      deliveredKey (run ops) q op c = fk.getD q.key ∧ (fk = none → deliveredKey (run ops) q op c = q.key) := by
-  obtain ⟨q, hq, hc, hcases⟩ := step_deliveries h
-  refine ⟨q, hq, hc, ?_⟩
-  rcases hcases with ⟨p, c0, fk, hop, _, _⟩ | ⟨hop, ho⟩ | ⟨hop, ho⟩ | ⟨hop, ho⟩
+/-- **`ok` carries the requested key**, for all histories: the record handed over is the completing reply's own
+record, and a reply is only used when its record carries the query's key. -/
+theorem ok_carries_requested_key : OkCarriesRequestedKey := by
+  intro ops op caller c h q hq hcq
+  have inv := inv_run ops
+  have ic := invC_run ops
+  obtain ⟨q', hq', hc', hcases⟩ := step_deliveries h
+  have hqq : q' = q := qid_unique inv.qidNodup hq' hq (ic.disjoint q' hq' q hq caller hc' hcq)
+  subst hqq
+  rcases hcases with ⟨p, c0, fk, hop, hkey, _, _⟩ | ⟨hop, ho⟩ | ⟨hop, ho⟩ | ⟨hop, ho⟩
   · subst hop
-    exact ⟨p, c0, fk, rfl, rfl, fun hfk => by subst hfk; rfl⟩
+    exact hkey
   · exfalso
     rcases ho with ho | ho
-    · exact (finished_ok_unreachable ops q hq).1 c ho.symm
+    · exact (finished_ok_unreachable ops q' hq').1 c ho.symm
     · cases ho
   · exfalso; rcases ho with ho | ho <;> cases ho
   · exfalso
     rcases ho with ho | ho
-    · rw [(finished_ok_unreachable ops q hq).2] at ho; cases ho
+    · rw [(finished_ok_unreachable ops q' hq').2] at ho; cases ho
     · cases ho
 
 /-- `ok c` is backed by a quorum *for key `key`*: at least `Q(cfg)` distinct peers each returned `c` in a record
@@ -504,79 +494,88 @@ carrying `key`. -/
 def BackedForKey (s' : State) (qid : Nat) (cfg : Cfg) (c : Content) (key : Nat) : Prop :=
   ∃ ps : List Nat, ps.Nodup ∧ getQuorumValue cfg.quorum ≤ ps.length ∧ ∀ p ∈ ps, (qid, p, c, key) ∈ s'.keys
 
-/-- Full strength: the quorum behind an `ok` consists of peers that returned the content *for the requested key*. -/
+/-- The quorum behind an `ok` consists of peers that returned the content *for the requested key*. -/
 def OkHasQuorumForRequestedKey : Prop :=
   ∀ (ops : List Op) (op : Op) (caller : Nat) (c : Content),
     (caller, Outcome.ok c) ∈ (step (run ops) op).2.deliveries →
     ∀ q ∈ (run ops).pending, caller ∈ q.senders →
       BackedForKey (step (run ops) op).1 q.qid q.cfg c q.key ∨ Merged q op c
 
-def kd3History : List Op :=
-  [.get 0 0 { quorum := .n 2, target := none, isReg := false }, .found 0 1 (.hdr .chunk 0) (some 1)]
+/-- **`ok` needs a quorum for the requested key**, for all histories: at least `Q` pairwise distinct peers each
+returned byte-identical `c` in a record carrying the requested key (or `c` is the transaction merge of a split). -/
+theorem ok_has_quorum_for_requested_key : OkHasQuorumForRequestedKey := by
+  intro ops op caller c h q hq hcq
+  have inv := inv_run ops
+  have ic := invC_run ops
+  have irk := invRK_run ops
+  obtain ⟨q', hq', hc', hcases⟩ := step_deliveries h
+  have hqq : q' = q := qid_unique inv.qidNodup hq' hq (ic.disjoint q' hq' q hq caller hc' hcq)
+  subst hqq
+  rcases hcases with ⟨p, c0, fk, hop, hkey, hreach, ho⟩ | ⟨_, ho⟩ | ⟨_, ho⟩ | ⟨_, ho⟩
+  · rcases ho with ho | ho
+    · unfold completedOutcome at ho
+      split at ho
+      · left
+        have ho := (sendCheckedK_ok ho.symm).symm
+        simp only [sendChecked, targetChecked, if_true] at ho
+        split at ho
+        · injection ho with hc; subst hc
+          obtain ⟨ps, hmem, hlen, _⟩ := addPeer_has q'.results c p
+          refine ⟨ps, addPeer_peers_nodup c p (inv.peersNodup q' hq') _ hmem, ?_, ?_⟩
+          · have := reached_true hreach; unfold quorumOf at this; omega
+          · intro p' hp'
+            have hks : (step (run ops) op).1.keys = (run ops).keys ++ [(q'.qid, p, c, q'.key)] := by
+              subst hop
+              simp [step, findQ_of_mem inv hq', hreach, terminate, hkey]
+            rw [hks]
+            rcases addPeer_mem hmem with hold | ⟨_, _, h3⟩
+            · exact List.mem_append_left _ (irk q' hq' _ hold p' hp')
+            · rcases h3 p' hp' with hpp | ⟨ps', hps', hpps⟩
+              · subst hpp; simp
+              · exact List.mem_append_left _ (irk q' hq' _ hps' p' hpps)
+        · cases ho
+      · rename_i hlen
+        right
+        dsimp only at ho
+        split at ho
+        · cases ho
+        · rename_i hne
+          injection ho with hc
+          obtain ⟨ps, hmem, _, _⟩ := addPeer_has q'.results c0 p
+          have hpos : 0 < (addPeer q'.results c0 p).1.length := List.length_pos_of_mem hmem
+          refine ⟨p, c0, fk, hop, ?_, hc, ?_⟩
+          · simp at hlen; omega
+          · intro h0; simp [h0] at hne
+    · cases ho
+  · exfalso
+    rcases ho with ho | ho
+    · exact (finished_ok_unreachable ops q' hq').1 c ho.symm
+    · cases ho
+  · exfalso; rcases ho with ho | ho <;> cases ho
+  · exfalso
+    rcases ho with ho | ho
+    · rw [(finished_ok_unreachable ops q' hq').2] at ho; cases ho
+    · cases ho
 
-/-- **Witness.** Quorum 2 for key 0: peer 1 returns the content in a record carrying key 1, peer 2 under key 0;
-the caller receives `ok` although a single peer returned that content for the requested key. -/
-theorem quorum_counts_foreign_key_witness :
-    (step (run kd3History) (.found 0 2 (.hdr .chunk 0) none)).2.deliveries = [(0, .ok (.hdr .chunk 0))] ∧
-    (step (run kd3History) (.found 0 2 (.hdr .chunk 0) none)).1.keys = [(0, 1, .hdr .chunk 0, 1), (0, 2, .hdr .chunk 0, 0)] ∧
-    (run kd3History).pending = [{ qid := 0, key := 0, senders := [0], results := [(.hdr .chunk 0, [1])],
-                                  cfg := { quorum := .n 2, target := none, isReg := false } }] := by
-  refine ⟨by decide, by decide, by decide⟩
-
-theorem not_okHasQuorumForRequestedKey : ¬ OkHasQuorumForRequestedKey := by
-  intro h
-  obtain ⟨hdel, hkeys, hpend⟩ := quorum_counts_foreign_key_witness
-  rcases h kd3History (.found 0 2 (.hdr .chunk 0) none) 0 (.hdr .chunk 0) (by rw [hdel]; simp)
-      { qid := 0, key := 0, senders := [0], results := [(.hdr .chunk 0, [1])],
-        cfg := { quorum := .n 2, target := none, isReg := false } }
-      (by rw [hpend]; exact List.mem_singleton.2 rfl) (by simp) with
-    ⟨ps, hnd, hlen, hall⟩ | ⟨p, c0, fk, hop, hlen, _⟩
-  · rw [hkeys] at hall
-    simp only [getQuorumValue] at hlen
-    match ps, hnd, hlen, hall with
-    | a :: b :: _, hnd, _, hall =>
-      have ha := hall a (by simp)
-      have hb := hall b (by simp)
-      simp at ha hb
-      simp [ha, hb] at hnd
-    | [], _, hlen, _ => simp at hlen
-    | [_], _, hlen, _ => simp at hlen
-  · injection hop with _ h2 h3 _
-    subst h2; subst h3
-    simp [addPeer] at hlen
-
-/-- **Partial.** If every reply recorded for the query (including the completing one) carried the query's key —
-which is what libp2p-kad is assumed to deliver from honest peers — the quorum behind a non-merged `ok` consists
-of peers that returned the content for the requested key. -/
-theorem ok_has_quorum_for_key_partial (ops : List Op) (op : Op) (caller : Nat) (c : Content)
-    (h : (caller, Outcome.ok c) ∈ (step (run ops) op).2.deliveries) :
-    ∃ q ∈ (run ops).pending, caller ∈ q.senders ∧
-      ((∀ p c' k, (q.qid, p, c', k) ∈ (step (run ops) op).1.keys → k = q.key) →
-        BackedForKey (step (run ops) op).1 q.qid q.cfg c q.key ∨ Merged q op c) := by
-  obtain ⟨q, hq, hc, hb⟩ := ok_has_quorum ops op caller c h
-  refine ⟨q, hq, hc, ?_⟩
-  intro hon
-  rcases hb with ⟨ps, hnd, hlen, hall, _⟩ | hm
-  · left
-    refine ⟨ps, hnd, hlen, ?_⟩
-    intro p hp
-    have hcov : KeysCover (step (run ops) op).1 := keysCover_step (keysCover_run ops) op
-    obtain ⟨k, hk⟩ := hcov _ (hall p hp)
-    have := hon p c k hk
-    subst this
-    exact hk
-  · right; exact hm
+/-- Invariant behind it: every responder counted for a version of a pending query returned that version in a
+record carrying the query's key. -/
+theorem responders_returned_for_key (ops : List Op) :
+    ∀ q ∈ (run ops).pending, ∀ e ∈ q.results, ∀ p ∈ e.2, (q.qid, p, e.1, q.key) ∈ (run ops).keys :=
+  invRK_run ops
 
 /-- the key history consists of replies of the history (an explicit key on the event is the recorded one) -/
 theorem keys_are_events (ops : List Op) (qid p : Nat) (c : Content) (k : Nat)
     (h : (qid, p, c, k) ∈ (run ops).keys) : ∃ fk, Op.found qid p c fk ∈ ops ∧ ∀ k', fk = some k' → k = k' :=
   keys_sound ops (qid, p, c, k) h
 
--- a foreign key never equals a plain target (whole records are compared), an `is_register` target ignores it
-example : (step (run [.get 0 0 { quorum := .one, target := some (.hdr .chunk 0), isReg := false }])
-      (.found 0 1 (.hdr .chunk 0) (some 1))).2.deliveries = [(0, .mismatch (.hdr .chunk 0))] := by decide
-example : (step (run [.get 0 0 { quorum := .one, target := some (.reg 0 true [1]), isReg := true }])
-      (.found 0 1 (.reg 0 true [1]) (some 1))).2.deliveries = [(0, .ok (.reg 0 true [1]))] := by decide
+-- the two histories of the former finding K-d3: the reply under key 1 is ignored
+example : (step (run [.get 0 0 { quorum := .one, target := none, isReg := false }])
+      (.found 0 1 (.hdr .chunk 0) (some 1))).2.deliveries = [] := by decide
+example : (step (run [.get 0 0 { quorum := .n 2, target := none, isReg := false }, .found 0 1 (.hdr .chunk 0) (some 1)])
+      (.found 0 2 (.hdr .chunk 0) none)).2.deliveries = [] := by decide
+-- an explicit key equal to the requested one counts
+example : (step (run [.get 0 0 { quorum := .n 2, target := none, isReg := false }, .found 0 1 (.hdr .chunk 0) (some 0)])
+      (.found 0 2 (.hdr .chunk 0) none)).2.deliveries = [(0, .ok (.hdr .chunk 0))] := by decide
 
 /-! ## Exactly one outcome per caller -/
 
@@ -639,10 +638,10 @@ theorem deliveries_only_on_removal (ops : List Op) (op : Op) (caller : Nat) (o :
   obtain ⟨q, hq, hcaller, hcases⟩ := step_deliveries h
   refine ⟨q, hq, hcaller, ?_⟩
   have hf := findQ_of_mem inv hq
-  rcases hcases with ⟨p, c0, fk, hop, hreach, _⟩ | ⟨hop, _⟩ | ⟨hop, _⟩ | ⟨hop, _⟩
+  rcases hcases with ⟨p, c0, fk, hop, hkey, hreach, _⟩ | ⟨hop, _⟩ | ⟨hop, _⟩ | ⟨hop, _⟩
   · subst hop
     intro x hx
-    simp [step, hf, hreach, terminate] at hx
+    simp [step, hf, hreach, terminate, hkey] at hx
     exact (mem_removeQ.1 hx).2
   · subst hop
     intro x hx
@@ -661,6 +660,20 @@ theorem closed_only_after_hangup (ops : List Op) (op : Op) (caller : Nat)
     (h : (caller, Outcome.closed) ∈ (step (run ops) op).2.deliveries) :
     ∃ q ∈ (run ops).pending, caller ∈ q.senders ∧ ∃ c' ∈ q.senders, c' ∈ (run ops).hung :=
   step_closed h
+
+/-- **The merge on the quorum path is the union.** The transaction set a reply-completed split hands over
+(`Merged`, `split_returns_all_or_merge`: `txUnion` of all versions, built in a `BTreeSet<Transaction>`) is sorted,
+duplicate-free and contains exactly the transactions of all versions — two transactions that differ only in the
+signature (ids `2b`, `2b+1`) are both kept. Proved from `Gen.txOrdComparesAllFields` (Transaction's derived `Ord`). -/
+theorem accumulate_merge_is_union (cs : List Content) :
+    Asc (txUnion cs) ∧ ∀ y, y ∈ txUnion cs ↔ ∃ l, Content.txs l ∈ cs ∧ y ∈ l :=
+  ⟨asc_txUnion cs, fun _ => mem_txUnion⟩
+
+-- a transaction and its look-alike with another signature are both in the merge, on both paths
+example : (step (run [.get 0 0 { quorum := .n 2, target := none, isReg := false },
+      .found 0 1 (.txs [0]) none, .found 0 2 (.txs [1]) none]) (.found 0 3 (.txs [0]) none)).2.deliveries
+    = [(0, .ok (.txs [0, 1]))] := by decide
+example : mergeSplit [.txs [1], .txs [0]] = some (.txs [0, 1]) := by decide
 
 /-! ## `handle_split_record_error`: the merge of a split
 
@@ -691,9 +704,9 @@ theorem merge_tx_is_union {order : List Content} {u : List Nat} (h : mergeSplit 
         split at h
         · rename_i hlen
           injection h with h; injection h with h; subst h
-          refine ⟨asc_txUnion _, hlen, ?_⟩
+          refine ⟨asc_txUnionH _, hlen, ?_⟩
           intro y
-          rw [mem_txUnion]
+          rw [mem_txUnionH]
           constructor
           · rintro ⟨l, hl, hy⟩; exact ⟨l, (List.mem_filter.1 hl).1, hy⟩
           · rintro ⟨l, hl, hy⟩; exact ⟨l, List.mem_filter.2 ⟨hl, by simp [kindOf]⟩, hy⟩
@@ -900,17 +913,16 @@ end SafeNet.Props.C05
 #print axioms SafeNet.Props.C05.targetMatch_iff_equals
 #print axioms SafeNet.Props.C05.ok_equals_target
 #print axioms SafeNet.Props.C05.split_returns_all_or_merge
-#print axioms SafeNet.Props.C05.foreign_key_returned_witness
-#print axioms SafeNet.Props.C05.not_okCarriesRequestedKey
-#print axioms SafeNet.Props.C05.ok_key_partial
-#print axioms SafeNet.Props.C05.quorum_counts_foreign_key_witness
-#print axioms SafeNet.Props.C05.not_okHasQuorumForRequestedKey
-#print axioms SafeNet.Props.C05.ok_has_quorum_for_key_partial
+#print axioms SafeNet.Props.C05.foreign_key_reply_ignored
+#print axioms SafeNet.Props.C05.ok_carries_requested_key
+#print axioms SafeNet.Props.C05.ok_has_quorum_for_requested_key
+#print axioms SafeNet.Props.C05.responders_returned_for_key
 #print axioms SafeNet.Props.C05.keys_are_events
 #print axioms SafeNet.Props.C05.one_outcome_each
 #print axioms SafeNet.Props.C05.terminating_event_answers_all
 #print axioms SafeNet.Props.C05.deliveries_only_on_removal
 #print axioms SafeNet.Props.C05.closed_only_after_hangup
+#print axioms SafeNet.Props.C05.accumulate_merge_is_union
 #print axioms SafeNet.Props.C05.merge_tx_is_union
 #print axioms SafeNet.Props.C05.merge_reg_is_union
 #print axioms SafeNet.Props.C05.merge_pad_is_highest_valid
